@@ -4,6 +4,7 @@ CONSTANTS
   MaxSpurious = 0
   FORWARD_WAKER = TRUE
   READY_DRAINS = TRUE
+  FILTER_MODE = "none"
   MaxTok = 5
   MaxPairTok = 2
   Toks = {"x", "u", "n", "LF", "CR", "CRLF", "SP", "COLON", "DATA", "EV", "ID", "RETRY", "BOM"}
